@@ -1,3 +1,18 @@
 import VotelibDriver.Loop
 import VotelibDriver.C07
-def main : IO Unit := VL.Drv.mainLoop [VL.Drv.C07.handle]
+open Lean VL.Drv
+
+/-- same protocol as `VL.Drv.mainLoop`, but every answer is flushed: the C07 oracle talks to the driver
+    synchronously (one certificate per request) while the implementation is being exercised. -/
+partial def loopFlush (hs : List Handler) (h : IO.FS.Stream) (out : IO.FS.Stream) : IO Unit := do
+  let line ← h.getLine
+  if line.isEmpty then return ()
+  let ans := match Json.parse line >>= dispatch hs with
+    | .ok j => j.compress
+    | .error e => (Json.mkObj [("driver_error", Json.str e)]).compress
+  out.putStrLn ans
+  out.flush
+  loopFlush hs h out
+
+def main : IO Unit := do
+  loopFlush [VL.Drv.C07.handle] (← IO.getStdin) (← IO.getStdout)
